@@ -1,20 +1,26 @@
 // Stand-in for clang_delta/TransformationManager.h used to run the REAL command-line parser of
-// clang_delta/ClangDelta.cpp (compiled verbatim) without Clang: every setter records its value; verify()
-// prints what the parser handed over and ends the process.  A method that ClangDelta.cpp calls and that is
-// not declared here makes the build fail: the check then reports that it cannot run the parser any more.
+// clang_delta/ClangDelta.cpp (compiled verbatim) and the REAL TransformationManager::verify (its text is taken
+// from TransformationManager.cpp by the harness) without Clang: every setter records its value; after verify()
+// accepted the arguments, initializeCompilerInstance() prints what the parser handed over and ends the process.
+// A method that ClangDelta.cpp calls and that is not declared here makes the build fail: the check then reports
+// that it cannot run the parser any more.
 #pragma once
 #include <string>
 #include <cstdio>
 #include <cstdlib>
+struct Transformation {
+  // rename-* transformations skip the counter check; chosen by the environment for the run
+  bool skipCounter() { return getenv("STANDIN_SKIP_COUNTER") != nullptr; }
+};
 class TransformationManager {
 public:
   static int ErrorInvalidCounter;
   static TransformationManager *GetInstance() { static TransformationManager M; return &M; }
   static void Finalize() { fflush(stdout); }
-  int setTransformation(const std::string &N) { Name = N; return 0; }
+  int setTransformation(const std::string &N) { Name = N; CurrentTransformationImpl = &Impl; return 0; }
   void setQueryInstanceFlag(bool F) { Query = F; }
   bool getQueryInstanceFlag() { return Query; }
-  void setTransformationCounter(int V) { Counter = V; CounterSet = true; }
+  void setTransformationCounter(int V) { TransformationCounter = V; CounterSet = true; }
   void setToCounter(int V) { ToCounter = V; ToSet = true; }
   void setOutputFileName(const std::string &) {}
   void setReplacement(const std::string &) {}
@@ -29,13 +35,15 @@ public:
   void printTransformations() {}
   void outputNumTransformationInstances() {}
   void outputNumTransformationInstancesToStderr() {}
-  bool initializeCompilerInstance(std::string &) { return true; }
-  bool doTransformation(std::string &, int &) { return true; }
-  bool verify(std::string &, int &) {
-    printf("PARSED counter=%s%d to-counter=%s%d\n", CounterSet ? "" : "unset:", Counter, ToSet ? "" : "unset:", ToCounter);
+  bool verify(std::string &ErrorMsg, int &ErrorCode);      // the real one, appended by the harness
+  bool initializeCompilerInstance(std::string &) {
+    printf("PARSED counter=%s%d to-counter=%s%d\n", CounterSet ? "" : "unset:", TransformationCounter, ToSet ? "" : "unset:", ToCounter);
     fflush(stdout);
     exit(0);
   }
+  bool doTransformation(std::string &, int &) { return true; }
 private:
-  std::string Name; bool Query = false; int Counter = -1; int ToCounter = -1; bool CounterSet = false, ToSet = false;
+  Transformation Impl;
+  Transformation *CurrentTransformationImpl = nullptr;
+  std::string Name; bool Query = false; int TransformationCounter = -1; int ToCounter = -1; bool CounterSet = false, ToSet = false;
 };
